@@ -46,3 +46,9 @@ Example C09_nonvacuous :
   basic_admits [(B "alice", B "secret")] (B "bAsIc " ++ b64_encode (B "alice:secret")) = true /\
   basic_admits [(B "alice", B "secret")] (B "Basic " ++ b64_encode (B "alice:Secret")) = false.
 Proof. split; vm_compute; reflexivity. Qed.
+
+(* histories on one middleware instance: the registration in force is the latest one for the user, at once *)
+Theorem C09_rotation_effective : forall table u p p2,
+  verify (table ++ [(u, p2)]) u p2 = true /\ (beq p2 p = false -> verify (table ++ [(u, p2)]) u p = false).
+Proof. exact rotation_effective. Qed.
+Print Assumptions C09_rotation_effective.
